@@ -2,6 +2,9 @@ import Driver.Util
 import ZvbiModel.Search.Model
 import ZvbiModel.Search.Matcher
 import ZvbiModel.Search.Current
+import ZvbiModel.Ure.Exec
+import ZvbiModel.Ure.Dfa
+import ZvbiModel.Ure.Current
 /-! Driver of the `search` model (C17); same line protocol as harness/search_harness.c -/
 namespace Zvbi.Driver.Search
 open Zvbi.Driver Zvbi.Search
@@ -11,6 +14,19 @@ structure St where
   search : Option (SearchSt × Option Exec) := none
 
 def init : St := {}
+
+/-- `ure_exec` of the Lean model of ure.c (ZvbiModel/Ure) as the matcher parameter of the search model: the flags
+    `search_page_fwd` / `search_page_rev` compute (URE_NOTBOL = 4, URE_NOTEOL = 8) reach the engine as in search.c.
+    `none`: ure_compile fails (vbi_search_new returns NULL) -/
+def ureExec (cf : Bool) (pat : List Nat) : Option Exec :=
+  match Zvbi.Ure.compile Zvbi.Ure.Shape.current Zvbi.Ure.CType.probed 0 cf pat with
+  | .dfa d =>
+    some (fun fl text =>
+      match Zvbi.Ure.exec Zvbi.Ure.Shape.current Zvbi.Ure.CType.probed d
+              ((if fl.notBol then 4 else 0) + (if fl.notEol then 8 else 0)) text with
+      | .found ms me => some (ms, me)
+      | _ => none)
+  | _ => none
 
 def hexStr (n : Nat) : String :=
   if n = 0 then "0" else
@@ -108,9 +124,17 @@ def step (s : St) (ws : List String) : St × String :=
         match searchNew a b p.length with
         | none => ({ s with search := none }, "ok null")
         | some ss =>
+          -- `mode` was a historical token (quirk / exact); since 8b7ac93 ure_exec finds the leftmost
+          -- occurrence of a literal, the model has one literal matcher.  Round 5: mode `ure` with a regular
+          -- expression = the pattern is compiled and executed by the model of ure.c
+          if re ≠ 0 ∧ mode = "ure" then
+            match ureExec (cf ≠ 0) p with
+            | none => ({ s with search := none }, "ok null")
+            | some ex =>
+              ({ s with search := some (ss, some ex) },
+               s!"ok new stop={ss.stopPgno0}.{ss.stopSubno0},{ss.stopPgno1}.{ss.stopSubno1}")
+          else
           let ex : Option Exec :=
-            -- `mode` is a historical token (quirk / exact); since 8b7ac93 ure_exec finds the leftmost
-            -- occurrence of a literal, the model has one literal matcher
             if re ≠ 0 then none
             else some (exactLit (cf ≠ 0) p)
           ({ s with search := some (ss, ex) },
